@@ -555,6 +555,8 @@ class Builtins:
                 return "true" if ci.lookup(name) else "false"
             if k in ("str", "int", "bool", "Flt", "DT", "none"):
                 return "false" if name in ("items", "write", "read", "value", "uri") else _unk(name, node)
+            if k == "handle" and name in ("read", "write"):
+                return "true"          # a Handle is an open stream object (text or binary)
             if k == "Val" and name == "value":
                 return "((_ is VLit) %s)" % o.t
         raise Unsupported("hasattr(%r, %s)" % (o, name), node)
@@ -656,6 +658,9 @@ class Builtins:
             return self.map_method(o, name, args, st, k, ctl, node)
         if k_ == "handle" and name in ("close", "flush"):
             return k(st, SV("none", T.NONE))          # buffering is not modelled: writes reach the file at once
+        if k_ == "handle" and name in ("getvalue", "read"):
+            # what a stream holds is ghost state (the ghost file system, keyed by the stream's name): assumed contract
+            return self.external("stream." + name, [o] + list(args), kwargs, st, k, ctl, node)
         if k_ == "DT" and name == "isoformat":
             return k(st, SV("(dt_iso %s)" % o.t, T.STR))
         raise Unsupported("method %s on %r" % (name, o.ty), node)
